@@ -59,7 +59,7 @@ pub struct Ctx {
 /// The `check` script builds them next to the main binary; the main run spawns each applicable one
 /// (`VERIF_VARIANT=<name>`), which runs the same property code against the library crates built
 /// with that configuration and hands its failures back on a `WORKER_RESULT` line.
-pub const VARIANTS: [(&str, &str, &[&str], &str); 3] = [
+pub const VARIANTS: [(&str, &str, &[&str], &str); 5] = [
     (
         "dbg",
         "/verif/.target/dbg/nexrad-mc",
@@ -69,8 +69,20 @@ pub const VARIANTS: [(&str, &str, &[&str], &str); 3] = [
     (
         "bare",
         "/verif/.target/v-bare/release/nexrad-mc",
-        &["C02", "C03", "C06", "C08", "C10", "C11", "C12", "C13"],
+        &["C02", "C03", "C06", "C08", "C10", "C11", "C12", "C13", "C14"],
         "nexrad-decode, nexrad-data and nexrad-model built with default-features = false and no features; the checks are restricted to the API that exists then",
+    ),
+    (
+        "x1",
+        "/verif/.target/v-x1/release/nexrad-mc",
+        &["C02", "C03", "C06", "C08", "C10", "C11", "C12", "C13", "C14", "C15", "C16", "C17"],
+        "no uom anywhere; nexrad-decode with nexrad-model; nexrad-data with aws, serde, bincode, bzip2, nexrad-model but without its nexrad-decode link; nexrad-model with chrono, serde",
+    ),
+    (
+        "x2",
+        "/verif/.target/v-x2/release/nexrad-mc",
+        &["C02", "C03", "C06", "C08", "C10", "C11", "C12", "C13", "C14", "C15", "C16", "C17"],
+        "nexrad-decode with uom but without nexrad-model; nexrad-data with aws, serde, bincode only; nexrad-model without features",
     ),
     (
         "aws",
@@ -926,8 +938,8 @@ pub fn history_check<R: PartialEq + Send + Sync + std::fmt::Debug>(
     }
     let per_round = t0.elapsed().as_secs_f64().max(1e-6);
     let dist = crate::props::disturb::disturbances();
-    let budget_s = if ctx.tier.thorough() { 120.0 } else { 2.0 };
-    let n_use = ((budget_s / per_round) as usize).clamp(24, dist.len());
+    let budget_s = if ctx.tier.thorough() { 120.0 } else { 1.0 };
+    let n_use = ((budget_s / per_round) as usize).clamp(8, dist.len());
     let stride = (dist.len() / n_use).max(1);
     let mut used = 0u64;
     let mut st = stats.into_inner().unwrap_or_else(|e| e.into_inner());
